@@ -501,5 +501,28 @@ Definition graph_edges_ok (t : tree) (verts edges : list (str * str)) : bool :=
   Nat.eqb (length edges) (length want)
   && forallb (fun e => existsb (pair_eqb e) edges) want.
 
+(* guards under which tree_to_dot's id scheme (label ++ index among the equally labelled paths)
+   is injective: no label ends in a decimal digit (else K2), the nodes have pairwise different
+   path names (true for Node trees whose names do not contain the separator: sibling names differ),
+   and no label contains a colon (else pydot cuts a port off the vertex name, K5) *)
+Definition is_digit_b (c : N) : bool := N.leb 48 c && N.leb c 57.
+Definition ends_in_digit (s : str) : bool :=
+  match rev s with c :: _ => is_digit_b c | [] => false end.
+Definition no_label_ends_in_digit (t : tree) : bool :=
+  forallb (fun x => negb (ends_in_digit (tname x))) (pre (compact t)).
+Definition no_label_has_colon (t : tree) : bool :=
+  forallb (fun x => negb (existsb (N.eqb 58%N) (tname x))) (pre (compact t)).
+
+(* (name, path name) of every node in pre-order; path name = sep ++ sep.join(names from the root) *)
+Fixpoint label_paths (sep pp : str) (t : tree) : list (str * str) :=
+  match t with
+  | T _ n _ ks =>
+      (n, pp ++ sep ++ n) ::
+      (fix go (l : list tree) : list (str * str) :=
+         match l with [] => [] | k :: r => label_paths sep (pp ++ sep ++ n) k ++ go r end) ks
+  end.
+Definition paths_distinct (sep : str) (t : tree) : bool :=
+  nodup_str (map snd (label_paths sep [] (compact t))).
+
 Definition prop_C18_g (t : tree) (verts edges : list (str * str)) : bool :=
   graph_vertices_ok (compact t) verts && graph_ids_distinct verts && graph_edges_ok (compact t) verts edges.
